@@ -24,6 +24,20 @@ register("C04", module="schedchecks", fn="case_c04", replay="replay_c04", binari
                       "build commands are deterministic DSL scripts that log start/end to an action log", "clean plz-out per run"],
          components={"real": REAL_WHOLE, "stub": STUB_WHOLE})
 
+register("C05", module="schedchecks", fn="case_c05", replay="replay_c05", binaries=("simplz",),
+         cases={"quick": 40, "thorough": 1500}, budget={"quick": 240, "thorough": 3000}, level="exploration",
+         rule="case = generated repo with one injected failure (failing command / undefined dependency / missing package / BUILD syntax or runtime error / dependency cycle through 1-4 targets / none) x request x 3(quick)/6(thorough) seeded schedules with 0-3 clock stalls of 5-30 s, threads 1-16, keep_going on/off; evaluations = simulated plz invocations; distinct_nontrivial = distinct schedule-trace hashes",
+         assumptions=["hang = no runnable task for 10 simulated minutes, or 400000 scheduling steps, or 2 simulated hours (bounded liveness once stalls stop)",
+                      "exit code must be non-zero exactly when the request's closure (computed from the RepoSpec) contains the injected failure",
+                      "which failure is reported first and which independent targets still ran are not asserted"],
+         components={"real": REAL_WHOLE, "stub": STUB_WHOLE})
+
+register("C07", module="schedchecks", fn="case_c07", replay="replay_c07", binaries=("simplz",),
+         cases={"quick": 16, "thorough": 600}, budget={"quick": 240, "thorough": 3000}, level="exploration",
+         rule="case = generated repo (multi-key env maps, label lists, named srcs, pass_env, require/provide, hash function drawn from 6) x 6(quick)/16(thorough) `plz hash [--detailed]` invocations with permuted command-line order, threads alternating 1/16, fresh or reused plz-out, each under a different seeded schedule AND a different seeded map-iteration order; oracle: stdout identical; distinct_nontrivial = distinct schedule-trace hashes",
+         assumptions=["Go map iteration order inside instrumented packages is replaced by a seeded per-task shuffle, so map-order leaks vary between runs of a case as they would between real runs"],
+         components={"real": REAL_WHOLE, "stub": STUB_WHOLE})
+
 
 def cmd_check(pid, tier):
     import framework
